@@ -193,6 +193,52 @@ theorem inputVerify_complete (m K S : Nat) (ok : Nat → Nat → Bool) (pos : Na
 -- non-vacuity: a 2-of-3 with signatures by keys 0 and 2 is accepted; one signature is not enough
 example : inputVerify 2 3 2 (fun j x => (j == 0 && x == 0) || (j == 1 && x == 2)) = true := by decide
 example : inputVerify 2 3 1 (fun j x => (j == 0 && x == 0)) = false := by decide
+/-- T4 (hash types, repair F101): with the comparison `okTyped` every signature that counts names
+the digest that was checked - acceptance implies m distinct key positions, each with a signature
+of hash type `h` that is valid under it. -/
+theorem typed_sound (m K S h : Nat) (ht : Nat → Nat) (valid : Nat → Nat → Bool)
+    (hv : inputVerify m K S (okTyped h ht valid) = true) :
+    ∃ ks : List Nat, ks.length ≥ m ∧ ks.Pairwise (· < ·) ∧
+      ∀ x ∈ ks, x < K ∧ ∃ j, j < S ∧ ht j = h ∧ valid j x = true := by
+  obtain ⟨ks, h1, h2, h3⟩ := inputVerify_sound m K S _ hv
+  refine ⟨ks, h1, h2, fun x hx => ?_⟩
+  obtain ⟨hx1, j, hj, hok⟩ := h3 x hx
+  simp only [okTyped, Bool.and_eq_true, beq_iff_eq] at hok
+  exact ⟨hx1, j, hj, hok.1, hok.2⟩
+
+/-- ... and signatures that all carry another hash type byte verify nothing, however valid they
+are as ECDSA signatures over the digest that was computed. -/
+theorem other_hash_type_never_counts (m K S h : Nat) (ht : Nat → Nat) (valid : Nat → Nat → Bool)
+    (hm : 1 ≤ m) (hne : ∀ j, ht j ≠ h) : inputVerify m K S (okTyped h ht valid) = false := by
+  apply no_valid_pair m K S _ hm
+  intro j x
+  simp [okTyped, hne j]
+
+/-- T5 (coinbase exemption, repair F102): when a transaction verifies, every input that is not
+typed coinbase passed the signature loop, and an input typed coinbase (all-zero previous
+transaction id) is the only input and has the null output number - zeroing the transaction id of
+an outpoint does not switch the signature check off. -/
+theorem coinbase_exempt_only_alone (ins : List VIn) (hv : txVerify ins = true) :
+    ∀ i ∈ ins, (i.coinbaseTyped = true → ins.length = 1 ∧ i.vout = 0xffffffff) ∧
+      (i.coinbaseTyped = false → i.sigsOk = true) := by
+  intro i hi
+  unfold txVerify at hv
+  rw [List.all_eq_true] at hv
+  have h := hv i hi
+  constructor
+  · intro hc
+    simp only [hc, if_true, Bool.and_eq_true, beq_iff_eq] at h
+    exact h
+  · intro hc
+    simpa [hc] using h
+
+/-- the hypotheses of T5 are met by a signed single-input transaction and not by the same
+transaction with the outpoint's transaction id zeroed (output number 1) -/
+example : txVerify [{ coinbaseTyped := false, vout := 1, sigsOk := true }] = true ∧
+    txVerify [{ coinbaseTyped := true, vout := 1, sigsOk := true }] = false ∧
+    txVerify [{ coinbaseTyped := true, vout := 0xffffffff, sigsOk := true }, { coinbaseTyped := false, vout := 0, sigsOk := true }] = false := by
+  decide
+
 /-- a non-positive threshold with at least one signature verifies vacuously in the loop as it is -/
 example : inputVerify 0 3 1 (fun _ _ => false) = true := by decide
 
